@@ -68,6 +68,8 @@ def in_string(line, pos):
 def candidates():
     out = []
     for f in FILES:
+        if os.environ.get('AUTOMUT_ONLY') and os.environ['AUTOMUT_ONLY'] not in f:
+            continue
         lines = open(os.path.join(PRISTINE or REPO, f)).read().split('\n')
         in_block = False
         for n, line in enumerate(lines):
